@@ -722,6 +722,7 @@ var (
 	untyped   = []string{"any", "map", "raw", "dyn", "snbt", "skip"}
 	hostileQ  []hostileCase
 	allocSeen int
+	trace     = os.Getenv("C03_TRACE") != "" // print every in-process case before it runs (debugging a runaway)
 )
 
 type hostileCase struct {
@@ -778,6 +779,11 @@ func judge(cat string, file bool, target string, data []byte, w ref, res result,
 		return
 	case "hang":
 		o.Fail("C03.hang."+base, "%s", desc())
+		if !strings.HasPrefix(cat, "hostile.") { // in this process: the decoder is still running; stop here
+			o.Note("run stopped after an in-process hang: %s", desc())
+			o.Close()
+			os.Exit(0)
+		}
 		return
 	case "oom":
 		o.Fail("C03.panic.oom."+base, "%s", desc())
@@ -814,7 +820,7 @@ func judge(cat string, file bool, target string, data []byte, w ref, res result,
 func feed(cat string, file bool, data []byte, targets []string, mustFail string) {
 	w := refWalk(data, file)
 	for _, target := range targets {
-		if w.hostile >= 1<<16 {
+		if w.hostile >= hostileMin {
 			hostileQ = append(hostileQ, hostileCase{cat, file, target, data, w})
 			continue
 		}
@@ -823,6 +829,9 @@ func feed(cat string, file bool, data []byte, targets []string, mustFail string)
 		op := opDecode
 		if file && mode == 0 && o.R.Intn(4) == 0 {
 			op = opUnmarshal
+		}
+		if trace {
+			fmt.Fprintf(os.Stderr, "R %d %s %s %s\n", idx, fmtName(file), target, hx.Hex(data))
 		}
 		res := runTyped(op, file, 0, target, data, mode)
 		implLine := res.Line(fmt.Sprintf("R %d", idx))
@@ -847,7 +856,7 @@ func feed(cat string, file bool, data []byte, targets []string, mustFail string)
 // RawMessage{Type, Data}: String() and Unmarshal into every kind of destination
 func feedRaw(cat string, id byte, data []byte) {
 	w := refWalk(append([]byte{id}, data...), false)
-	if w.hostile >= 1<<16 {
+	if w.hostile >= hostileMin {
 		return
 	}
 	idx++
@@ -903,6 +912,8 @@ func feedRaw(cat string, id byte, data []byte) {
 // hostile declared lengths: a child process under an address-space limit; allocation and time bounds
 
 const (
+	hostileMin = 1 << 12   // a declared count above this that the input cannot hold: decoded in the child process
+	parentAS   = 16 << 30  // RLIMIT_AS of the harness itself: a runaway decoder kills the harness, not the machine
 	childAS    = 3 << 30   // RLIMIT_AS of the child
 	allocBound = 256 << 20 // bytes a single decode of a small input may allocate in total
 )
@@ -1138,6 +1149,7 @@ func main() {
 		return
 	}
 	debug.SetMemoryLimit(4 << 30)
+	_ = syscall.Setrlimit(syscall.RLIMIT_AS, &syscall.Rlimit{Cur: parentAS, Max: parentAS})
 	o = hx.Open()
 	defer o.Close()
 	r := o.R
